@@ -144,11 +144,11 @@ Qed.
 Lemma pow2_divmod8 sh : 0 <= sh -> 2 ^ sh = 2 ^ (8 * (sh / 8)) * 2 ^ (sh mod 8).
 Proof. intros H. rewrite <- Z.pow_add_r by lia. f_equal. lia. Qed.
 
-Theorem shl_spec a sh : bytes_ok a -> 0 <= sh ->
-  uval (shl a sh) = (uval a * 2 ^ sh) mod P256 (length a)
-  /\ bytes_ok (shl a sh) /\ length (shl a sh) = length a.
+Theorem shl_g_spec a sh : bytes_ok a -> 0 <= sh ->
+  uval (shl_g a sh) = (uval a * 2 ^ sh) mod P256 (length a)
+  /\ bytes_ok (shl_g a sh) /\ length (shl_g a sh) = length a.
 Proof.
-  intros Ha Hsh. unfold shl.
+  intros Ha Hsh. unfold shl_g.
   destruct (shl_bytes_spec a (sh / 8) Ha ltac:(lia)) as (Hv & Hb & Hl).
   destruct (shl_bits_spec (shl_bytes (sh / 8) a) (sh mod 8) 0 Hb ltac:(lia)
               ltac:(split; [lia|apply Z.pow_pos_nonneg; lia])) as (Hv2 & Hb2 & Hl2).
@@ -234,11 +234,11 @@ Proof.
     + rewrite app_length, skipn_length, K2. lia.
 Qed.
 
-Theorem shr_spec a sh : bytes_ok a -> 0 <= sh ->
-  uval (shr a sh) = uval a / 2 ^ sh
-  /\ bytes_ok (shr a sh) /\ length (shr a sh) = length a.
+Theorem shr_g_spec a sh : bytes_ok a -> 0 <= sh ->
+  uval (shr_g a sh) = uval a / 2 ^ sh
+  /\ bytes_ok (shr_g a sh) /\ length (shr_g a sh) = length a.
 Proof.
-  intros Ha Hsh. unfold shr.
+  intros Ha Hsh. unfold shr_g.
   destruct (shr_bytes_spec a (sh / 8) Ha ltac:(lia)) as (Hv & Hb & Hl).
   destruct (shr_bits_spec (shr_bytes (sh / 8) a) (sh mod 8) Hb ltac:(lia)) as (Hv2 & Hb2 & Hl2).
   rewrite Hv2, Hl2, Hl, Hv. split; [|split; [exact Hb2|reflexivity]].
@@ -284,9 +284,9 @@ Proof.
       rewrite Hlog. lia.
 Qed.
 
-Theorem ubits_spec a : bytes_ok a -> ubits a = bits (uval a).
+Theorem ubits_g_spec a : bytes_ok a -> ubits_g a = bits (uval a).
 Proof.
-  intros Ha. unfold ubits, bits. rewrite (bits_from_spec a 0 Ha ltac:(lia)).
+  intros Ha. unfold ubits_g, bits. rewrite (bits_from_spec a 0 Ha ltac:(lia)).
   pose proof (uval_bound a Ha) as Hbd.
   destruct (Z.eqb_spec (uval a) 0) as [E|E]; destruct (Z.leb_spec (uval a) 0); try lia; reflexivity.
 Qed.
